@@ -44,8 +44,8 @@ def run(rep):
     fam_cases = c05.enumerate_programs(rep, "C05", rep.tier, tag="enum_closure", env={"FAMS": "CL HO EO"})
     progs = [{"id": "F%d" % c["id"], "fam": c["fam"], "par": c["par"], "prog": c["prog"]} for c in fam_cases]
     rnd = random.Random(rep.seed * 104729 + 15)
-    nclo = int(os.environ.get("C15_NCLO", "200" if quick else "1000"))
-    ngen = int(os.environ.get("C15_NGEN", "60" if quick else "300"))
+    nclo = int(os.environ.get("C15_NCLO", "150" if quick else "1000"))
+    ngen = int(os.environ.get("C15_NGEN", "40" if quick else "300"))
     for i in range(nclo):
         progs.append({"id": "C%d" % i, "fam": "closure-random", "par": {"seed": rep.seed, "n": i}, "prog": c05_gen.closure_program(rnd)})
     for i in range(ngen):
